@@ -328,7 +328,8 @@ func zzBuildSchema(w *zzWorld) Schema {
 					}
 					ac := &ArgumentConfig{Type: at}
 					if a.hasDef {
-						ac.DefaultValue = a.def
+						// the schema gets its own copy: the table stays what the oracle reads
+						ac.DefaultValue = zzDeepCopy(a.def)
 					}
 					args[a.name] = ac
 				}
